@@ -491,21 +491,21 @@ func judgeTracking(res *check.Result, sc *world.Scenario, co *childOut, prop str
 	for _, ev := range co.Events {
 		if ev.Fault != "" && !strings.HasPrefix(ev.Fault, "driver.") {
 			lastFault = ev.T
-			if ev.Flags&(kernel.FInitSeq|kernel.FPwmMapSweep) != 0 {
+			if ev.Flags&(kernel.FInitSeq|kernel.FPwmMapSweep|kernel.FManual) != 0 && sc.Family == "c09init" {
+				// during the analysis only a failed READ leaves the healthy device fully characterisable: fan2go
+				// knows the read failed and the device did what it was told. A write that failed or was ignored
+				// (PWM or mode) means the device really did not take the value at that moment, and an invented
+				// number is a lie: what fan2go then measures is legitimately not the healthy device.
 				switch ev.Fault {
-				case "write.ignored", "read.huge", "read.negative":
-					lied = true
-				}
-				if strings.HasPrefix(ev.Fault, "read.value:") {
+				case "read.eio", "read.missing", "read.empty", "read.garbage", "read.eacces":
+				default:
 					lied = true
 				}
 			}
 		}
 	}
 	if lied {
-		// the device answered the analysis with a success that was none (ignored write, invented number):
-		// the limits fan2go measured are then legitimately not those of the healthy device
-		res.Probe("tracking-not-judged(device lied during the analysis)")
+		res.Probe("tracking-not-judged(device refused or lied during the analysis)")
 		return
 	}
 	// the PWM in force is what the fan shows at the horizon (a loop whose target equals the value
